@@ -652,6 +652,24 @@ func Units(tier string) []Unit {
 		}
 		yield(b)
 	}})
+	us = append(us, Unit{Name: "same-operands", Each: func(yield func([]byte) bool) {
+		// the same operand bytes after two colour opcodes that read them differently
+		ops := []byte{0x80, 0x88, 0x90, 0x91, 0x98, 0xa0, 0xa1, 0xa7}
+		width := map[byte]int{0x80: 1, 0x88: 2, 0x90: 3, 0x91: 3, 0x98: 4, 0xa0: 3, 0xa1: 3, 0xa7: 3}
+		for _, t := range [][4]byte{{0x40, 0xc1, 0x85, 0x80}, {0x00, 0x7f, 0x80, 0x00}, {0xff, 0x30, 0x66, 0xff}, {0x80, 0x80, 0x80, 0x80}} {
+			for _, a := range ops {
+				for _, b := range ops {
+					s := append(append([]byte{}, Magic...), 0x00, a)
+					s = append(s, t[:width[a]]...)
+					s = append(s, b)
+					s = append(s, t[:width[b]]...)
+					if !yield(s) {
+						return
+					}
+				}
+			}
+		}
+	}})
 	us = append(us, Unit{Name: "long-inputs", Each: func(yield func([]byte) bool) {
 		// valid streams around and well beyond 64 KiB, and the same with a reserved opcode at the end
 		pat := []byte{0x01, 0x41, 0xc0, 0x80, 0x80, 0x00, 0x82, 0x84, 0x41, 0x70, 0x90, 0xe1, 0x98, 0x30, 0x20, 0x07, 0x80}
